@@ -77,6 +77,8 @@ type caseRun struct {
 	frames    int  // message frames recorded in this case
 	flood     bool // the daemon keeps sending: the case is cut short and judged as it stands
 	quiet     bool // no settle/snapshot after each operation (mass set-up of a forced scenario)
+	forceBody int  // body size of the next publishes (0: random)
+	countBad  bool // *.bad files count as the owner's disk files (scenario bad-file-survives-delete only)
 }
 
 func tname(t int) string {
